@@ -13,7 +13,7 @@
    them) and are not modelled.  No proofs here. *)
 From Coq Require Import String List NArith ZArith Bool.
 From J5V.lib Require Import Outcome.
-From J5V.model Require Import ReflectDesc ReflectSchema Reflect ExportForm Export ReflectOwn.
+From J5V.model Require Import ReflectDesc ReflectSchema Reflect ExportForm Export ReflectOwn ReflectNames.
 Import ListNotations.
 Local Open Scope bool_scope.
 
@@ -252,7 +252,7 @@ Definition api_of_set (wanted : list str) (S : sset) : outcome xapi := api_of_se
    of schema names (ReflectOwn.v: two descriptors asking for one name are an error) *)
 Definition api_from_image (D : desc) (svcs : list svcd) (wanted : list str) (fs : list filed) : outcome xapi :=
   obind (lift (add_structure wanted (api_init wanted) svcs)) (fun api0 =>
-  obind (omap fst (o_reflect D fs)) (api_of_set_from api0)).
+  obind (omap fst (ReflectNames.o_reflect_checked D fs)) (api_of_set_from api0)).
 
 (* what PackageSetFromSourceAPI walks: every schema of every package and sub-package under the
    name it files it under *)
